@@ -363,4 +363,60 @@ Section Run.
         * assert (Hjk : (List.length rest < k)%nat) by lia.
           destruct (Hp _ Hjk) as (p' & Hb' & _ & _ & Hts'). rewrite Hb in Hb'. injection Hb' as <-. apply Hts'. exact Hs.
   Qed.
+  Lemma all_some_total : forall {A} (l : list (option A)),
+    (forall j, (j < List.length l)%nat -> exists a, nth_error l j = Some (Some a)) ->
+    exists r, all_some l = Some r /\ List.length r = List.length l.
+  Proof.
+    intros A l. induction l as [|o l IH]; intros H.
+    - exists []. split; reflexivity.
+    - destruct (H 0%nat ltac:(cbn; lia)) as (a & Ha). cbn in Ha. injection Ha as ->.
+      destruct IH as (r & Hr & Hl).
+      { intros j Hj. apply (H (S j)). cbn. lia. }
+      exists (a :: r). cbn. rewrite Hr. split; [reflexivity|cbn; lia].
+  Qed.
+
+  (* the collecting loop never meets an empty slot: s.buffer[i].Payload is never a nil dereference *)
+  Lemma collect_all_some : forall s consume col k,
+    l_head (active s) < 65536 ->
+    pass is_tail s (l_head (active s)) k -> ended is_tail s (l_head (active s)) k consume ->
+    l_empty consume = false ->
+    collect s consume = (col, false) ->
+    exists hp rest, all_some col = Some (hp :: rest).
+  Proof.
+    intros s consume col k Hh Hp He Hne Hcol.
+    set (h := l_head (active s)) in *.
+    pose proof (pass_ended_bound s h k consume Hp He) as Hk.
+    assert (Hch : l_head consume = h).
+    { destruct He as (q & _ & _ & [[_ ->]|(_ & _ & _ & ->)]); reflexivity. }
+    assert (Hn : exists n, w16 (h + N.of_nat n) = l_tail consume /\ (0 < n)%nat /\ N.of_nat n < 65536 /\
+                 (n <= S k)%nat).
+    { destruct He as (q & Hq & _ & [[Ht ->]|(Ht & _ & _ & ->)]); cbn [l_head l_tail l_empty] in *.
+      - exists (S k). apply N.eqb_neq in Hne.
+        assert (E : inc16 (w16 (h + N.of_nat k)) = w16 (h + N.of_nat (S k))).
+        { rewrite inc16_spec, !w16_spec. lia. }
+        rewrite E in Hne |- *. split; [reflexivity|]. split; [lia|]. split; [|lia].
+        destruct (N.eq_dec (N.of_nat (S k)) 65536) as [E2|E2]; [|lia].
+        exfalso. apply Hne. rewrite E2, w16_spec. replace (h + 65536) with (h + 1 * 65536) by lia.
+        rewrite N.mod_add by lia. symmetry. apply N.mod_small. exact Hh.
+      - exists k. apply N.eqb_neq in Hne. split; [reflexivity|]. split; [|split; lia].
+        destruct k; [|lia]. exfalso. apply Hne. rewrite w16_spec. replace (h + N.of_nat 0) with h by lia.
+        symmetry. apply N.mod_small. exact Hh. }
+    destruct Hn as (n & Hnt & Hn0 & Hn65 & Hnk).
+    apply collect_spec in Hcol; [|rewrite Hch; exact Hh]. rewrite Hch in Hcol.
+    destruct Hcol as (len & Hc & Hlt & Hmin).
+    assert (Hlen : len = n).
+    { destruct (Nat.lt_trichotomy len n) as [Hl|[Hl|Hl]]; [exfalso|exact Hl|exfalso].
+      - rewrite <- Hnt in Hlt. rewrite !w16_spec in Hlt. lia.
+      - apply (Hmin n Hl). exact Hnt. }
+    subst len.
+    destruct (all_some_total col) as (r & Hr & Hl).
+    { intros j Hj. rewrite Hc in Hj |- *. rewrite map_length, keys_from_length in Hj.
+      rewrite nth_error_map, keys_from_nth by assumption. cbn.
+      destruct (Nat.eq_dec j k) as [->|Hjk].
+      - destruct He as (q & Hq & _). exists q. rewrite Hq. reflexivity.
+      - destruct (Hp j ltac:(lia)) as (q & Hq & _). exists q. rewrite Hq. reflexivity. }
+    destruct r as [|hp rest].
+    - exfalso. rewrite Hc, map_length, keys_from_length in Hl. cbn in Hl. lia.
+    - exists hp, rest. exact Hr.
+  Qed.
 End Run.
